@@ -50,6 +50,7 @@ registry! {
     c24::C24,
     c25::C25,
     c26::C26,
+    c27::C27,
     c28::C28,
     c29::C29,
     c30::C30,
